@@ -211,6 +211,21 @@ def lagrange_kernel(ctx):
     ctx.ok("AGREE", f.key, "result==num*invert(den)")
 
 
+def rho_is_h1_of_preimage(P, f):
+    """compute_binding_factor_list returns one entry per (identifier, preimage) of binding_factor_preimages(package, key, prefix):
+    identifier -> H1(that whole preimage) — collect form or insert loop"""
+    v = FnView.get(P, f)
+    oks = ok_values(f, v)
+    comps = map_components(P, f, v, unwrap_newtypes(oks[0])) if len(oks) == 1 else []
+    pre = lambda u: u[0] == "ok" and is_call(u[1], name="binding_factor_preimages") and u[1][2][0] == ("arg", 1) and \
+        u[1][2][1] == ("arg", 2) and u[1][2][2] == ("arg", 3)
+    ok = len(comps) == 1 and comps[0][0] == "each" and pre(comps[0][1]) and comps[0][2] == ("field", ITEM, None, "0")
+    if ok:
+        val = unwrap_newtypes(comps[0][3])
+        ok = is_call(val, name="H1") and len(val[2]) == 1 and strip_views(val[2][0]) == ("field", ITEM, None, "1")
+    return ok
+
+
 def strip_views(t):
     """peel value-preserving views (as_slice / as_ref / deref / borrow)"""
     while is_call(t) and t[1].rsplit("::", 1)[-1] in ("as_slice", "as_ref", "deref", "borrow", "as_bytes") and len(t[2]) == 1:
@@ -363,14 +378,7 @@ def run(ctx):
     f = P.fns.get(CORE + "compute_binding_factor_list")
     if f:
         v = FnView.get(P, f)
-        oks = ok_values(f, v)
-        comps = map_components(P, f, v, unwrap_newtypes(oks[0])) if len(oks) == 1 else []
-        pre = lambda u: u[0] == "ok" and is_call(u[1], name="binding_factor_preimages") and u[1][2][0] == ("arg", 1) and \
-            u[1][2][1] == ("arg", 2) and u[1][2][2] == ("arg", 3)
-        ok = len(comps) == 1 and comps[0][0] == "each" and pre(comps[0][1]) and comps[0][2] == ("field", ITEM, None, "0")
-        if ok:
-            val = unwrap_newtypes(comps[0][3])
-            ok = is_call(val, name="H1") and len(val[2]) == 1 and strip_views(val[2][0]) == ("field", ITEM, None, "1")
+        ok = rho_is_h1_of_preimage(P, f)
         clo = [1]
         ctx.check(ok and len(clo) == 1, "PROV", f.key, "rho_i==H1(preimage_i)-for-every-signer",
                   "each signer's binding factor must be H1 of that signer's preimage, keyed by that signer", f.loc)
@@ -440,6 +448,12 @@ def run(ctx):
         ctx.check(bool(zb) and bool(edges) and not sep(f, edges, zb), "SEP", key, "equal-length-before-zip",
                   "scalars and points are zipped without the equal-length refusal: a missing point would silently drop a term", f.loc)
     lagrange_kernel(ctx)
+    # the i-th commitments a signer publishes are those of the i-th nonces it keeps (otherwise its own signing step refuses the
+    # package with IncorrectCommitment): shared with C15
+    f = ctx.anchor(CORE + "round1::preprocess")
+    if f:
+        from .c15 import preprocess_pairs
+        preprocess_pairs(ctx, f)
     # valid inputs are not refused: the count / parameter refusals are exactly the specified ones (a stricter comparison
     # such as `<=`, `>=` or an added upper bound does not match the exact normal form and is reported here)
     from .c03 import sign_count_refusal, aggregate_count_refusal
